@@ -377,7 +377,7 @@ fn graph_level(tr: &mut Trace, id: &mut u64, rng: &mut Rng, rounds: usize) {
 fn omitted_outputs(tr: &mut Trace, id: &mut u64, rng: &mut Rng, cat: &[Entry], reps: usize, only: Option<&str>) {
     for en in cat {
         let Some(base_node) = &en.node else { continue };
-        if en.big {
+        if en.big || en.thr {
             continue;
         }
         if let Some(o) = only {
@@ -474,7 +474,7 @@ pub fn main() -> i32 {
                 continue;
             }
         }
-        if en.big {
+        if en.big || en.thr {
             continue;
         }
         let op = match en.load() {
